@@ -466,20 +466,20 @@ SPECS[MC + "message_count"] = dict(ensures=[
     C("metrics.message_count.reads_the_count_cell", "C20", "self.cells_known(*old(w)) ==> r == old(w).cells()[self.message_count.cell()]")])
 SPECS[MC + "max_processing_time"] = dict(ensures=[
     C("metrics.max_processing_time.reads_the_max_cell", "C20", "self.cells_known(*old(w)) ==> dur_nanos(r) == old(w).cells()[self.max_processing_nanos.cell()] as nat")])
-SPECS[MC + "avg_processing_time"] = dict(ensures=[
+SPECS[MC + "avg_processing_time"] = dict(binders={"count": r"let\s+(\w+)\s*=\s*self\s*\.\s*message_count\s*\.\s*load", "total": r"let\s+(\w+)\s*=\s*self\s*\.\s*total_processing_nanos\s*\.\s*load"}, ensures=[
     C("metrics.avg.is_total_over_count", "C20", "self.cells_known(*old(w)) ==> dur_nanos(r) == avg_spec(old(w).cells()[self.total_processing_nanos.cell()] as nat, old(w).cells()[self.message_count.cell()] as nat)"),
     C("metrics.avg.le_max_under_invariant", "C20", "(self.cells_known(*old(w)) && self.coll_inv(*old(w))) ==> dur_nanos(r) <= old(w).cells()[self.max_processing_nanos.cell()] as nat"),
-], proofs=[("let total_nanos = self.total_processing_nanos.load(Ordering::Relaxed, w);",
-            "proof { if self.cells_known(*old(w)) && self.coll_inv(*old(w)) { lemma_avg_le_max(total_nanos as int, count as int, old(w).cells()[self.max_processing_nanos.cell()] as int); } }", "after")])
-SPECS[MC + "snapshot"] = dict(ensures=[
+], proofs=[([r"let\s+\w+\s*=\s*self\s*\.\s*total_processing_nanos\s*\.\s*load\s*\([^;]*\)\s*;"],
+            "proof { if self.cells_known(*old(w)) && self.coll_inv(*old(w)) { lemma_avg_le_max($total as int, $count as int, old(w).cells()[self.max_processing_nanos.cell()] as int); } }", "after")])
+SPECS[MC + "snapshot"] = dict(binders={"count": r"let\s+(\w+)\s*=\s*self\s*\.\s*message_count\s*\.\s*load", "total": r"let\s+(\w+)\s*=\s*self\s*\.\s*total_processing_nanos\s*\.\s*load"}, ensures=[
     C("metrics.snapshot.agrees_with_accessors", "C20",
       "self.cells_known(*old(w)) ==> (r.message_count == old(w).cells()[self.message_count.cell()] "
       "&& dur_nanos(r.avg_processing_time) == avg_spec(old(w).cells()[self.total_processing_nanos.cell()] as nat, old(w).cells()[self.message_count.cell()] as nat) "
       "&& dur_nanos(r.max_processing_time) == old(w).cells()[self.max_processing_nanos.cell()] as nat)"),
     C("metrics.snapshot.avg_le_max_under_invariant", "C20",
       "(self.cells_known(*old(w)) && self.coll_inv(*old(w))) ==> dur_nanos(r.avg_processing_time) <= dur_nanos(r.max_processing_time)"),
-], proofs=[("let total_nanos = self.total_processing_nanos.load(Ordering::Relaxed, w);",
-            "proof { if self.cells_known(*old(w)) && self.coll_inv(*old(w)) && count > 0 { lemma_avg_le_max(total_nanos as int, count as int, old(w).cells()[self.max_processing_nanos.cell()] as int); } }", "after")])
+], proofs=[([r"let\s+\w+\s*=\s*self\s*\.\s*total_processing_nanos\s*\.\s*load\s*\([^;]*\)\s*;"],
+            "proof { if self.cells_known(*old(w)) && self.coll_inv(*old(w)) && $count > 0 { lemma_avg_le_max($total as int, $count as int, old(w).cells()[self.max_processing_nanos.cell()] as int); } }", "after")])
 SPECS["metrics/collector.rs::MessageProcessingGuard::new"] = dict(ensures=[
     C("metrics.guard.new.opens_on_given_collector", "C20", "r.collector == collector && final(w).mmon() == mstep(old(w).mmon(), MEv::Open(collector.cid()))"),
     C("metrics.guard.new.frame", "C12 C20",
